@@ -6,6 +6,8 @@ import Spine.SortGen
 import Spine.Store
 import Spine.Generated.Shapes
 import Spine.Generated.Wiring
+import Spine.C02Paths
+import Spine.Generated.UpdPaths
 /-!
 # C02 — replicated function data follows the SPINE restricted-exchange update rules
 
@@ -86,6 +88,19 @@ rules as overlay / restrict / erase. Tables regenerated from the tree under test
   shows what an incomplete identifier in the data does to `Merge`.
 * **`SortData` on arbitrary items**: `c02_sortdata_all_inputs` (permutation, no item less than its left
   neighbour, idempotent, comparator asymmetric — for ALL lists); `c02_comparator_not_weak_order_with_missing_parts`.
+
+* **Entry paths** ("received as reply or notify from a peer or applied through the local API"), over the table
+  `Spine/Generated/UpdPaths.lean` that `go/updpaths` regenerates from the SSA form of the tree under test
+  (interprocedural, helpers looked through, classifier of a path = the `CmdClassifierType` constant guarding the call):
+  `c02_entry_paths` (every row — every way `FeatureLocal.HandleMessage`, `NodeManagement.HandleMessage`,
+  `FeatureLocal.SetData` / `UpdateData` / `ApproveOrDenyWrite`, `FeatureRemote.UpdateData` reach
+  `FunctionDataInterface.UpdateDataAny` — has the arguments the model assumes: reply, notify and the local API store
+  with `remoteWrite = false`, persisting, filters handed on unchanged; a write with `remoteWrite = true`; one call
+  site per row), `c02_entry_paths_cover` (no call site of `UpdateDataAny` in the module lies outside these paths;
+  the rows for reply, notify, `SetData`, `UpdateData` exist), `c02_store_hands_arguments_on` (`FunctionData` hands
+  the five arguments on, in order, once: `UpdateDataAny → UpdateData → Updater.UpdateList`),
+  `c02_entry_flags`, `c02_history_any_entry_path` (a history whose updates arrive through ANY mixture of reply,
+  notify, `UpdateData`, `SetData` is folded by the one engine call of `c02_history`: same data, same SPEC fold).
 
 ## Refuted (kernel-checked witnesses)
 
@@ -766,5 +781,53 @@ def headMember : UCfg :=
 example : (match updateListF headMember exShape false exStore exUpdate none exDelete with
      | .ok r => r.out | .panic _ => []) =
       [[some 0, none, none, none, some 7], [some 1, some 1, some 1, none, some 3]] := by decide
+
+/-! ## reply, notify, local API: every entry path feeds the one engine (regenerated from the tree's SSA form) -/
+
+/-- **Every way into the store**, over the regenerated table: each row — an entry point of package `spine`
+    (`FeatureLocal.HandleMessage` and `NodeManagement.HandleMessage` per command classifier, `FeatureLocal.SetData`,
+    `FeatureLocal.UpdateData`, `FeatureLocal.ApproveOrDenyWrite`, `FeatureRemote.UpdateData`) reaching the call of
+    `FunctionDataInterface.UpdateDataAny` — hands over what the model assumes (`Paths.pathOK`): reply, notify and the
+    local API `remoteWrite = false` and `persist = true`; a write `remoteWrite = true`, `persist = true`;
+    `FeatureRemote.UpdateData` its own `persist`; the filters of the message resp. of the caller, or none; and
+    every row has exactly one call site. -/
+theorem c02_entry_paths : ∀ p ∈ Generated.updPaths, Paths.pathOK p = true ∧ p.sites = 1 := by decide +kernel
+
+/-- **… and there is no other way**: every call site of `UpdateDataAny` in the module is reached from these entry
+    points, and the rows of the statement's three kinds of path exist. -/
+theorem c02_entry_paths_cover :
+    Generated.updSinkSites = Generated.updSinkSitesCovered ∧ 0 < Generated.updSinkSites ∧
+    ∀ e ∈ Paths.Entry.all, (Generated.updPaths.any e.covers) = true := by decide +kernel
+
+/-- **The store hands the arguments on**: `FunctionData.UpdateDataAny` calls `UpdateData` once, with its five
+    parameters in order; `UpdateData` calls `model.Updater.UpdateList` once, with its five parameters in order
+    (the per-type methods' wiring into the generic engine is `c02_wiring`). -/
+theorem c02_store_hands_arguments_on :
+    Generated.storeAnyToUpdate = [["p0", "p1", "p2", "p3", "p4"]] ∧
+    Generated.storeUpdateToList = [["p0", "p1", "p2", "p3", "p4"]] := by decide +kernel
+
+/-- reply, notify, `FeatureLocal.UpdateData`, `FeatureLocal.SetData`: one and the same `(remoteWrite, persist)` -/
+theorem c02_entry_flags : ∀ e : Paths.Entry, Paths.entryFlags Generated.updPaths e = some (false, true) := by
+  intro e
+  cases e <;> decide +kernel
+
+/-- **Histories through any mixture of entry paths**: the stored data after a sequence of decided restricted
+    updates, each arriving as reply, as notify, or through the local API, is the data `c02_history` speaks about —
+    one item per identifier, equal as a map to the fold of the SPEC rules — because every path runs the same engine
+    call with the same arguments. -/
+theorem c02_history_any_entry_path (sh : Shape) (hk : structKeyLast sh.keys = true) (us : List (Paths.Entry × Upd))
+    (st : List Item) (hw : wfData sh st = true) (hd : DecidedAll sh st (us.map (·.2))) :
+    ∃ l, Paths.runVia Generated.updPaths sh st us = some l ∧ wfData sh l = true ∧
+      abs sh l = runSpec sh (abs sh st) (us.map (·.2)) := by
+  rw [Paths.runVia_eq_runStore Generated.updPaths c02_entry_flags sh us st]
+  exact history_refines sh hk (us.map (·.2)) st hw hd
+
+/-- non-vacuity: the partial update of the first section arriving as a notify, then a delete through the local
+    API; and what a table with a path that stores as a remote write would do to `entryFlags` -/
+example : Paths.runVia Generated.updPaths exShape exStore [(.notify, ⟨exUpdate, none, none⟩), (.localUpdate, ⟨[], none, exDelete⟩)] =
+      some [[some 0, none, none, none, some 7], [some 1, some 1, some 1, none, some 3]] ∧
+    Paths.entryFlags [⟨"FeatureLocal", "HandleMessage", ["notify"], "true", "true", "nil", "nil", 1⟩] .notify = some (true, true) ∧
+    Paths.pathOK ⟨"FeatureLocal", "HandleMessage", ["notify"], "true", "true", "nil", "nil", 1⟩ = false := by
+  decide +kernel
 
 end Spine.Props.C02
